@@ -77,20 +77,26 @@ def cat(f):
 
 
 @task()
+def guard(a):
+    {guard}
+
+
+@task()
 def main(a):
     {main}
 '''
 
 
 class Prog:
-    def __init__(self, ctx: Ctx, tag: str):
+    def __init__(self, ctx: Ctx, tag: str, kwfile: bool = False):
+        self.kwfile = kwfile   # the File is handed to its reader by keyword instead of positionally
         self.dir = ctx.scratch / f"c02_{tag}"
         self.dir.mkdir(parents=True, exist_ok=True)
         self.ns = f"c02_{tag}_{os.getpid()}"
         self.modname = f"c02mod_{tag}_{os.getpid()}"
         self.file = self.dir / "input.txt"
         self.db = simloop.clone_db(ctx.scratch, f"c02_{tag}.db")
-        self.body = {t: 1 for t in ("main", "div", "rec", "twice", "cat", "vinc")}
+        self.body = {t: 1 for t in ("main", "guard", "div", "rec", "twice", "cat", "vinc")}
         self.fver, self.arg = 1, 0
         self.write_file()
 
@@ -108,8 +114,9 @@ class Prog:
             rec="-1" if b["rec"] == 1 else "-2",
             vincv=b["vinc"], vinc=b["vinc"],
             twice="return div(a)" if b["twice"] == 1 else "return vinc(a + a)",
-            main="return catch(div(a), ZeroDivisionError, rec)" if b["main"] == 1
-            else "return twice(a) + cat(File(PATH))")
+            guard="return catch(div(a), ZeroDivisionError, rec)" if b["guard"] == 1 else "return 5",
+            main=("return guard(a) + cat(f=File(PATH))" if self.kwfile else "return guard(a) + cat(File(PATH))")
+            if b["main"] == 1 else "return twice(a)")
         # 'cat' has one body; editing it is modelled as a no-op on its result, so add a comment line
         if b["cat"] == 2:
             src = src.replace("    return int(f.read())", "    # edited\n    return int(f.read())")
@@ -138,8 +145,9 @@ class Prog:
         return out["outcome"]
 
 
-def replay_history(ctx: Ctx, hist: list, tag: str, check_fresh_for_real: bool, quiet=None) -> None:
-    p = Prog(ctx, tag)
+def replay_history(ctx: Ctx, hist: list, tag: str, check_fresh_for_real: bool, quiet=None,
+                   kwfile: bool = False) -> None:
+    p = Prog(ctx, tag, kwfile)
     nontrivial, ran, changed = False, False, False
     for i, st in enumerate(hist):
         if st["op"] == "edit":
@@ -209,13 +217,23 @@ def run(ctx: Ctx) -> None:
     ctx.note("histories_emitted", len(behs))
     # always include the witness of the known deviation and every history whose last run is 'dev'
     devs = [b for b in behs if any(s.get("dev") for s in b if s["op"] == "run")]
+    # histories in which the deviation changes the answer first (the witness of the open finding)
+    devs.sort(key=lambda b: 0 if any(s["op"] == "run" and s.get("dev") and s["cached"] != s["fresh"] for s in b) else 1)
+
+    def interesting(b) -> bool:   # a run, then a change, then another run
+        ops = [s["op"] for s in b]
+        first = ops.index("run") if "run" in ops else len(ops)
+        return any(o != "run" for o in ops[first + 1:]) and ops[-1] == "run" and first < len(ops) - 1
+
     rest = [b for b in behs if b not in devs]
     ctx.rng.shuffle(rest)
-    chosen = devs[: ctx.pick(25, 10000)] + rest[: ctx.pick(150, 100000)]
+    rest.sort(key=lambda b: 0 if interesting(b) else 1)   # stable: interesting histories first
+    ctx.note("histories_run_change_run", sum(1 for b in rest if interesting(b)))
+    chosen = devs[: ctx.pick(25, 10000)] + rest[: ctx.pick(260, 100000)]
     ctx.note("histories_replayed", len(chosen))
     ctx.note("histories_with_deviation_in_model", len(devs))
     for i, b in enumerate(chosen):
-        replay_history(ctx, b, f"h{i}", check_fresh_for_real=(i % 10 == 0))
+        replay_history(ctx, b, f"h{i}", check_fresh_for_real=(i % 10 == 0), kwfile=(i % 2 == 1))
     ctx.sample({"source": "Cache.tla", "history": chosen[len(chosen) // 2]})
     # negative control: the comparison must notice a wrong cached answer
     ctl = [{"op": "run", "t": "", "v": 0, "cached": -1, "fresh": 12345, "dev": False}]
